@@ -405,13 +405,14 @@ impl ExpandedField<'_> {
             qualified_type
         };
 
+        // The helpers return `String` / `Option<String>`: only `ID!` and `ID` fields have these
+        // types. Lists of IDs (`[ID!]!`, `[ID]`, ...) are `Vec`s and must not get them.
         let is_id = self.field_type == "ID";
-        let is_required = self
-            .field_type_qualifiers
-            .contains(&GraphqlTypeQualifier::Required);
-        let id_deserialize_with = if is_id && is_required {
+        let id_deserialize_with = if is_id
+            && self.field_type_qualifiers == [GraphqlTypeQualifier::Required]
+        {
             Some(quote!(#[serde(deserialize_with = "graphql_client::serde_with::deserialize_id")]))
-        } else if is_id {
+        } else if is_id && self.field_type_qualifiers.is_empty() {
             Some(
                 quote!(#[serde(deserialize_with = "graphql_client::serde_with::deserialize_option_id")]),
             )
